@@ -526,20 +526,22 @@ func genMalformed(g *hx.Gen) {
 
 // (E) a group that has lived long enough for its rotation index to pass 999 (indices only grow: with the default 10 MB head that
 // is ~10 GB of WAL over a node's life).  File names then carry four digits; a reopened group must still count, open and
-// search them.  ~1000 rotations of an empty head, then markers spread over the files around index 1000, a restart, and the
+// search them.  ~1000 rotations of a head holding one small record, then markers spread over the files around index 1000, a restart, and the
 // searches and reads of a recovering node.
 func genLongLived(g *hx.Gen, k int) {
 	l := &logGen{g: g, h: 1}
 	l.ops = []string{hx.CaseOp("longlived")}
-	pre := []int{996, 998, 999, 1000}[k%4] + g.Rng.Intn(2)
-	if g.Rng.Intn(2) == 0 { // something in the very first file too
+	pre := []int{998, 1000, 997, 999, 1001}[k%5] // with at least 4 files after it, a marker always lies in a rotated file of index >= 1000
+	if g.Rng.Intn(2) == 0 {                      // something in the very first file too
 		l.marker()
 		l.ops = append(l.ops, "sync")
 	}
+	filler := genRecord(g, l.h, 0) // RotateFile renames the head file: it must exist, so every file gets one small record
 	for i := 0; i < pre; i++ {
+		l.add(filler)
 		l.ops = append(l.ops, "rotate")
 	}
-	files := 3 + g.Rng.Intn(5)
+	files := 5 + g.Rng.Intn(4)
 	for f := 0; f < files; f++ {
 		for n := g.Rng.Intn(3); n > 0; n-- {
 			l.add(genRecord(g, l.h, 0))
@@ -556,6 +558,7 @@ func genLongLived(g *hx.Gen, k int) {
 	if g.Rng.Intn(4) != 0 {
 		l.ops = append(l.ops, "crash") // restart: the group is rebuilt from the directory listing
 	}
+	l.ops = append(l.ops, "disk")
 	for _, h := range l.heights {
 		l.ops = append(l.ops, fmt.Sprintf("search h=%d ign=%d", h, g.Rng.Intn(2)))
 	}
